@@ -985,6 +985,18 @@ func (p *Parser) parseBlockStmt() *ast.BlockStmt {
 	stmt := &ast.BlockStmt{Token: p.curToken}
 
 	for !p.curTokenIs(token.END) {
+		// the block is never closed, "@end" is missing
+		if p.curTokenIs(token.EOF) || p.curTokenIs(token.ILLEGAL) {
+			p.newError(
+				p.curToken.ErrorLine(),
+				fail.ErrWrongNextToken,
+				token.String(token.END),
+				token.String(p.curToken.Type),
+			)
+
+			break
+		}
+
 		block := p.parseStatement()
 
 		if block != nil {
